@@ -317,6 +317,51 @@ class Check(object):
         return 1 if self.violations else 0
 
 
+FORBIDDEN = re.compile(r'\b(Admitted|admit|Axiom|Axioms|Parameter|Parameters|Conjecture|Conjectures|Admit\s+Obligations|native_compute|'
+                       r'bypass_check)\b|Unset\s+Guard\s+Checking|Unset\s+Positivity\s+Checking|Unset\s+Universe\s+Checking|'
+                       r'type-in-type|impredicative-set')
+SECTION_LOCAL = re.compile(r'^\s*(?:Local\s+|Global\s+)?(Variable|Variables|Hypothesis|Hypotheses|Context)\b')
+
+
+def forbidden_tokens():
+    """Declarations that would put something outside the kernel's check: none may occur anywhere in the development
+    (comments and strings stripped); Variable / Hypothesis / Context are allowed inside a Section only, where they are
+    discharged as ordinary universally quantified premises when the section closes."""
+    hits = []
+    for root in (os.path.join(COQ, 'theories'), GEN, os.path.join(COQ, 'extract')):
+        for d, _, files in os.walk(root):
+            for f in sorted(files):
+                if not f.endswith('.v'):
+                    continue
+                with open(os.path.join(d, f)) as fh:
+                    text = fh.read()
+                prev = None
+                while prev != text:     # strip (nested) comments
+                    prev = text
+                    text = re.sub(r'\(\*(?:(?!\(\*|\*\)).)*?\*\)', ' ', text, flags=re.S)
+                text = re.sub(r'"(?:[^"]|"")*"', '""', text)
+                rel = os.path.relpath(os.path.join(d, f), COQ)
+                for m in FORBIDDEN.finditer(text):
+                    hits.append('%s: %s' % (rel, m.group(0)))
+                stack = []
+                for line in text.split('\n'):
+                    m = re.match(r'^\s*(Section|Module(?:\s+Type)?)\s+(\w+)\s*\.', line)
+                    if m:
+                        stack.append((m.group(1)[0], m.group(2)))
+                        continue
+                    m = re.match(r'^\s*End\s+(\w+)\s*\.', line)
+                    if m and stack:
+                        stack.pop()
+                        continue
+                    m = SECTION_LOCAL.match(line)
+                    if m and not any(k == 'S' for k, _ in stack):
+                        hits.append('%s: %s outside a section' % (rel, m.group(1)))
+    with open(os.path.join(COQ, '_CoqProject')) as fh:
+        for m in FORBIDDEN.finditer(fh.read()):
+            hits.append('_CoqProject: %s' % m.group(0))
+    return hits
+
+
 def proof_stage(chk, props_module, extra_targets=(), search=None):
     """Build Props/<Cxx>.vo (and everything it depends on), collect Print Assumptions.
 
@@ -349,6 +394,10 @@ def proof_stage(chk, props_module, extra_targets=(), search=None):
             chk.violation('proof obligation no longer checks: %s' % br.failed_file,
                           {'broken_obligation': {'file': br.failed_file, 'error': br.error}}, None, False)
         return False
+    bad = forbidden_tokens()
+    chk.coverage['forbidden_declarations'] = bad
+    for b in bad[:5]:
+        chk.violation('the Coq development contains a declaration outside the kernel\'s check: %s' % b, {'forbidden': b}, None, False)
     assum = print_assumptions(props_module, names, chk.wd)
     closed = 0
     for n in names:
